@@ -245,6 +245,11 @@ Definition v_walkmodel_k (i : input) (k_bad : bool) : step :=
   guard (negb (is_nil (cons i)) && negb (cov_ok i)) VE ;> None.
 Definition v_walkmodel (i : input) : step := v_walkmodel_k i (k_le0 i).
 
+(* the additional starts / ends handed to stDAG / stDiGraph: in node mode they were expanded (and thereby
+   checked for membership) by get_expanded_additional_starts / _ends before *)
+Definition st_of (i : input) := match origin i with ONode => map (fun _ => true) (starts i) | _ => starts i end.
+Definition en_of (i : input) := match origin i with ONode => map (fun _ => true) (ends i) | _ => ends i end.
+
 (* ------------------------------------------------------------------ DAG models *)
 (* kFlowDecomp.__init__ (kflowdecomp.py:123-256); [kk] = k is a positive python int (MinFlowDecomp passes one) *)
 Definition kfd_core (i : input) (ign_empty : bool) (k_bad : bool) : outcome :=
@@ -290,7 +295,7 @@ Definition validate_MinFlowDecomp (i : input) : outcome :=
    checks we model; after super().__init__ the encoders run `range(k)` and name rows with a loop variable *)
 Definition validate_kErrDAG (i : input) : outcome :=
   front i true ;;
-  v_stdag i (match origin i with ONode => [] | _ => starts i end) (match origin i with ONode => [] | _ => ends i end) ;;
+  v_stdag i (st_of i) (en_of i) ;;
   guard (negb (wtype_ok i)) VE ;;
   v_maxflow i ;;
   v_pathmodel i ;;
@@ -329,7 +334,7 @@ Definition front_cover (i : input) : step :=
    on the internal graph for k = lower bound, ... *)
 Definition validate_MinPathCover (i : input) : outcome :=
   front_cover i ;;
-  v_stdag i (match origin i with ONode => [] | _ => starts i end) (match origin i with ONode => [] | _ => ends i end) ;;
+  v_stdag i (st_of i) (en_of i) ;;
   guard (negb (search_enters i)) AcceptsButUnsolved ;;
   v_pathmodel i ;;
   Accept.
@@ -345,15 +350,13 @@ Definition validate_MinErrorFlow (i : input) : outcome :=
   | OOther => Some VE
   end ;;
   (if acyclic i
-   then v_stdag i (match origin i with ONode => [] | _ => starts i end) (match origin i with ONode => [] | _ => ends i end)
+   then v_stdag i (st_of i) (en_of i)
    else None) ;;
   guard (negb (wtype_ok i)) VE ;;
   guard (missing_live i) VE ;;
   Accept.
 
 (* ------------------------------------------------------------------ cyclic models *)
-Definition st_of (i : input) := match origin i with ONode => [] | _ => starts i end.
-Definition en_of (i : input) := match origin i with ONode => [] | _ => ends i end.
 (* what happens after stDiGraph's source/sink test has been fooled: NetworkXError / KeyError / IndexError
    somewhere in the model code, or an unsolved model — never a solved one, never a ValueError (DESIGN #20) *)
 Definition v_fooled (i : input) : step := guard (fooled i (st_of i) (en_of i)) (RaiseOther ECrash).
